@@ -742,11 +742,11 @@ def _chain_worker(conn, ign, b_over, c_over, c_new, dotted, seq):
                      'start = [X, Y, K?]\nX = "x"\nY = "y"\nT(a) = a\nclass K {\n v: X\n}\nZ = T(Y)\n')
         b = f'grammar {names[1]} extends {names[0]}\n' + ign_stmt[ign[1]].format(L='b')
         b += {'no': '', 'plain': 'override X = "B"\n', 'super': 'override X = "B" | super.X\n'}[b_over]
-        b += 'NB = [X, Y]\n'
+        b += 'NB = [X, Y]\nNB2 = super.T(X)\n'        # a template called through super: static too
         descs.append(b)
         c = f'grammar {names[2]} extends {names[1]}\n' + ign_stmt[ign[2]].format(L='c')
         c += {'no': '', 'plain': 'override X = "C"\n', 'super': 'override X = "C" | super.X\n'}[c_over]
-        c += ('NC = [Y, Z, NB]\n' if c_new else 'NC = "nc"\n')
+        c += ('NC = [Y, Z, NB]\nNC2 = super.T(Y) | super.NB2\n' if c_new else 'NC = "nc"\n')
         descs.append(c)
         mods = []
         results = []
@@ -787,7 +787,7 @@ def _chain_worker(conn, ign, b_over, c_over, c_new, dotted, seq):
                 results.append((f'level {lvl + 1}: without own ignore the skipper is the parent\'s', ctx._try__ignored is mods[lvl - 1]._ctx._try__ignored, None))
             results.append((f'level {lvl + 1}: importlib finds the installed grammar', importlib.import_module(names[lvl]) is m, None))
             # exported names of inherited rules are the parent's objects
-            results.append((f'level {lvl + 1}: Y is exported (inherited object or own)', hasattr(m, 'Y') and (lvl == 0 or m.Y is mods[0].Y), None))
+            results.append((f'level {lvl + 1}: Y is exported (every rule of the base is available in the derived module)', hasattr(m, 'Y') and hasattr(m.Y, 'parse'), None))
         # behaviour through each level (bounded, labelled so by the caller): what X means, late binding inside inherited rules
         sp = ' ' if ign[0] != 'none' else ''
         expect_x = {0: {'x'}, 1: {'x'} if b_over == 'no' else ({'B'} if b_over == 'plain' else {'B', 'x'})}
@@ -803,6 +803,18 @@ def _chain_worker(conn, ign, b_over, c_over, c_new, dotted, seq):
                     got = repr(e)
                 results.append((f'level {lvl + 1}: inherited start parses {tok!r} as X iff some definition visible at this level accepts it',
                                 got == (tok in expect_x[lvl]), {'got': got}))
+        # the same through the rule OBJECT the derived module exports for an inherited rule (observation point `B.<Rule>.parse`)
+        for lvl, m in enumerate(mods):
+            for tok in ('x', 'B', 'C'):
+                try:
+                    m.start.parse(tok + sp + 'y')
+                    got = True
+                except (m.ParseError, m.PartialParseError):
+                    got = False
+                except Exception as e:
+                    got = repr(e)
+                results.append((f'level {lvl + 1}: <module>.start.parse (the exported object of the inherited start rule) parses {tok!r} as X iff some definition '
+                                f'visible at this level accepts it', got == (tok in expect_x[lvl]), {'got': got, 'want': tok in expect_x[lvl]}))
         # histories: compiling a grammar again under the SAME name replaces it for everything created afterwards (`extends` goes by name)
         if b_over == 'no' and c_over == 'no':
             a2 = Grammar(descs[0].replace('X = "x"', 'X = "z"'))
@@ -868,7 +880,10 @@ def inheritance_obligations(rep, tier, unit='wiring:inheritance'):
                 p.join(1)
                 for name, ok, detail in res:
                     kind = 'bounded' if 'parses' in name and 'inherited start' in name else 'schematic'
-                    rep.add(unit, f'{name} {tag}', 'schematic', bool(ok) if ok in (True, False) else False, detail={'detail': detail})
+                    okb = bool(ok) if ok in (True, False) else False
+                    rep.add(unit, f'{name} {tag}', 'schematic', okb, detail={'detail': detail},
+                            replay={'reproduced': True, 'violated': [detail], 'how': 'the real Grammar() chain was built and the real parse entry point run'}
+                            if not okb and isinstance(detail, dict) and 'got' in detail else None)
 
 
 def derived_start_obligations(rep, tier, unit='wiring:inheritance-start'):
@@ -921,6 +936,9 @@ def _spill_kinds():
         'template call': lambda: X.Seq(X.Call(_ref('T'), [Stub(1, False, False)]), Stub(2, False, False)),
         'uses a parameter': lambda: X.Seq(_local('p'), Stub(1, False, False)),
         'uses two names': lambda: X.Seq(_local('q'), _local('p')),
+        # seven names: whatever order a set of these strings iterates in (hash seed), it is not the sorted one the helper declares -
+        # the call site must pass the values in the order of the helper's OWN parameter list
+        'uses seven names': lambda: X.Seq(*[_local(n) for n in ('q', 'p', 'zeta', 'alpha', 'k', 'm1', 'b2')]),
         'always succeeds': lambda: X.List(Stub(1, False, True)),
         'single literal': lambda: X.Str('abc'),
     }
@@ -973,6 +991,34 @@ def spill_obligations(rep, tier, unit='wiring:spill'):
             same = len(body) == len(want) + 1 and all(_same_modulo_ids(a, b) for a, b in zip(body, want)) \
                 and ast.unparse(body[-1]) == 'yield (_status, _result, _pos)'
             rep.add(unit, f'helper body = the inline fragment + `yield (_status, _result, _pos)` {tag}', 'case_complete', same, detail={'src': src})
+
+
+def captured_argument_order_obligations(rep, tier, unit='wiring:captured-argument-order'):
+    """a compound expression passed as an ARGUMENT (T(<expr>)) that mentions names bound at the call site becomes a helper; the call site wraps
+    it as _ParseFunction(helper, (values...), ()) - the values must be, position by position, the helper's own extra parameters"""
+    from contracts.call import _ref, _local
+    for names in (('q', 'p'), ('q', 'p', 'zeta', 'alpha', 'k', 'm1', 'b2'), ('Open', 'Close', 'Word'), ('x9', 'x10', 'x1', 'x', 'X', '_y')):
+        for ctx in (False, True):
+            for callee in ('rule', 'local'):
+                node = X.Call(_ref('T') if callee == 'rule' else _local('f'), [X.Seq(*[_local(n) for n in names])])
+                src = frag.emit(node, ctx)
+                tree = ast.parse(src)
+                lead = (['_ctx'] if ctx else []) + ['_text', '_pos']
+                pfs = [n for n in ast.walk(tree) if isinstance(n, ast.Call) and ast.unparse(n.func) == '_ParseFunction' and isinstance(n.args[0], ast.Name)
+                       and n.args[0].id.startswith('_parse_function_')]
+                ok, detail = bool(pfs), {'src': src[:1500]}
+                for pf in pfs:
+                    fn = next((n for n in tree.body if isinstance(n, ast.FunctionDef) and n.name == pf.args[0].id), None)
+                    if fn is None or not isinstance(pf.args[1], ast.Tuple):
+                        ok = False
+                        continue
+                    params = astutil.params_of(fn)
+                    passed = [ast.unparse(x) for x in pf.args[1].elts]
+                    if params[:len(lead)] != lead or passed != params[len(lead):] or set(passed) != set(names):
+                        ok = False
+                        detail.update(helper_parameters=params, passed=passed)
+                rep.add(unit, f'captured values are passed in the order of the helper\'s parameter list [names={",".join(names)},ctx={int(ctx)},callee={callee}]',
+                        'case_complete', ok, detail=detail)
 
 
 def block_accounting_obligations(rep, tier, unit='wiring:block-accounting'):
@@ -1936,13 +1982,15 @@ def frontend_literal_obligations(rep, tier, unit='ground:front-end-literals'):
             ok, d = False, {'raised': repr(ex_)[:200]}
         rep.add(unit, f'{lit}i: a case-insensitive literal matches exactly its value up to case (metacharacters are not operators)', 'ground', ok, detail=d)
     # regex literals keep their pattern; the i suffix is the only flag
-    for src, pat, ic in (('/a.c/', 'a.c', False), ('/a.c/i', 'a.c', True), ('b/[0-9]+/', b'[0-9]+', False), ('/x\\/y/', 'x/y', False)):
+    for src, pat, ic in (('/a.c/', 'a.c', False), ('/a.c/i', 'a.c', True), ('b/[0-9]+/', b'[0-9]+', False), ('/x\\/y/', 'x/y', False),
+                         # every spelling of prefix and suffix the meta-grammar accepts ([bB]? ... [iI]?)
+                         ('B/[0-9]+/', b'[0-9]+', False), ('/a.c/I', 'a.c', True), ('b/a.c/i', b'a.c', True), ('B/a.c/I', b'a.c', True)):
         try:
             e = expr(src)
             got = _regex_payload(e)
             rx_a, rx_b = _re.compile(got[0], _re.IGNORECASE if got[1] else 0), _re.compile(pat, _re.IGNORECASE if ic else 0)
-            pr = ['a.c', 'abc', 'ABC', 'a/c', 'x/y', 'xy', '12', ''] if isinstance(pat, str) else [b'12', b'a', b'']
-            ok = isinstance(e, X.Regex) and got[1] == ic and all((rx_a.fullmatch(p) is None) == (rx_b.fullmatch(p) is None) for p in pr)
+            pr = ['a.c', 'abc', 'ABC', 'a/c', 'x/y', 'xy', '12', ''] if isinstance(pat, str) else [b'12', b'a', b'', b'abc', b'ABC', b'/12', b'/abc']
+            ok = isinstance(e, X.Regex) and got[1] == ic and type(got[0]) is type(pat) and all((rx_a.fullmatch(p) is None) == (rx_b.fullmatch(p) is None) for p in pr)
         except Exception as ex_:
             ok, got = False, repr(ex_)
         rep.add(unit, f'{src}: a regex literal is Regex with its own pattern and the i suffix as its only flag', 'ground', ok, detail={'got': repr(got)[:120]})
@@ -2075,3 +2123,84 @@ def frontend_renaming_obligations(rep, tier, unit='ground:front-end-renaming'):
                 want = ref.replace(neutral.capitalize(), nm.capitalize()).replace(neutral, nm)
                 rep.add(unit, f'{sname}: `{nm}` is an ordinary identifier (same tree as with a neutral name, up to the renaming)', 'ground', got == want,
                         detail={'got': got[:200], 'want': want[:200]})
+
+
+# ---------------------------------------------------------------------------------------------- scope tracker (C05 / C06 / C17)
+def symbol_counter_obligations(rep, tier, unit='bounded:SymbolCounter'):
+    """the scope tracker behind `is_local` resolution and the captured names of helper functions (`SymbolCounter`, driven by `visit` with a
+    pre- and a post-visitor) as a data structure against its abstract view: the view is the STACK of open binders; `is_bound(x)` iff x is
+    on the stack - for EVERY name, so leaving an inner binder of `x` keeps an outer binder of `x` in force (shadowing); a local reference
+    is free iff its name is not on the stack when it is met.  BOUNDED: the real class on every well-nested forest of <= 4
+    nodes over 8 node kinds, every prefix of the trace compared with the stack model - labelled bounded, never counted as proved."""
+    import itertools
+    from types import SimpleNamespace as NS
+    from sourcer.expressions import base as B
+    kinds = [('let', 'a'), ('let', 'b'), ('par', ('a',)), ('par', ('a', 'b')), ('par', ()), ('par', None), ('ref', 'a'), ('ref', 'b')]
+
+    def node(kind):
+        k, v = kind
+        return NS(defines_local=k == 'let', name=v if k != 'par' else 'T', has_params=k == 'par', params=(list(v) if v is not None else None) if k == 'par' else None,
+                  is_reference=k == 'ref', is_local=k == 'ref')
+
+    def forests(n):
+        # ordered forests with n nodes as nested tuples
+        if n == 0:
+            yield ()
+            return
+        for first in range(1, n + 1):
+            for kids in forests(first - 1):
+                for rest in forests(n - first):
+                    yield (kids,) + rest
+
+    def label(forest, it):
+        return tuple((next(it), label(kids, it)) for kids in forest)
+
+    def run(forest, sc, stack, free, bad, trace):
+        for kind, kids in forest:
+            nd = node(kind)
+            k, v = kind
+            if k == 'ref' and v not in stack:
+                free.add(v)
+            sc.previsit(nd)
+            pushed = [v] if k == 'let' else (list(v or ()) if k == 'par' else [])
+            stack.extend(pushed)
+            trace.append(('enter', kind))
+            compare(sc, stack, bad, trace)
+            run(kids, sc, stack, free, bad, trace)
+            sc.postvisit(nd)
+            for _ in pushed:
+                stack.pop()
+            trace.append(('leave', kind))
+            compare(sc, stack, bad, trace)
+
+    def compare(sc, stack, bad, trace):
+        for x in ('a', 'b', 'zz'):
+            if bool(sc.is_bound(x)) != (x in stack) and len(bad) < 3:
+                bad.append({'trace': list(trace), 'name': x, 'is_bound': bool(sc.is_bound(x)), 'open binders': list(stack)})
+
+    nmax = 4        # 40738 traces, 2 s (5 nodes: 1.09 million traces, 55 s - run once by hand, held)
+    tried, bad = 0, []
+    for n in range(1, nmax + 1):
+        for shape in forests(n):
+            for labels in itertools.product(kinds, repeat=n):
+                if not any(k == 'ref' for k, _ in labels):
+                    continue
+                forest = label(shape, iter(labels))
+                sc, stack, free, trace = B.SymbolCounter(), [], set(), []
+                before = len(bad)
+                run(forest, sc, stack, free, bad, trace)
+                tried += 1
+                if len(bad) == before and set(sc.freevars) != free and len(bad) < 3:
+                    bad.append({'trace': trace, 'freevars': sorted(sc.freevars), 'want': sorted(free)})
+            if len(bad) >= 3:
+                break
+    rep.add(unit, f'is_bound(x) iff x is on the stack of open binders, after every event; freevars = references met outside every binder of their name '
+                  f'[all well-nested forests of <= {nmax} nodes over {len(kinds)} node kinds: {tried} traces]', 'bounded', not bad,
+            detail={'violations': bad[:3]}, replay={'reproduced': True, 'violated': bad[:3]} if bad else None)
+    # a fresh tracker starts empty (no state shared between trackers - each call of freevars() / each rule gets its own)
+    s1 = B.SymbolCounter()
+    s1.previsit(node(('ref', 'a')))
+    s2 = B.SymbolCounter()
+    rep.add(unit, 'a new tracker starts with no free names and no open binder, whatever earlier trackers saw', 'bounded',
+            not s2.freevars and not s2.is_bound('a') and s2.freevars is not s1.freevars)
+    rep.functions.update(['sourcer.expressions.base.SymbolCounter'])
